@@ -131,6 +131,12 @@ pub struct TorrentMap<I: Ip> {
 }
 
 impl<I: Ip> TorrentMap<I> {
+    /// Verification hook: number of torrents currently stored
+    #[cfg(aquatic_verif)]
+    pub fn verif_num_torrents(&self) -> usize {
+        self.torrents.len()
+    }
+
     fn new(worker_index: usize, ipv4: bool) -> Self {
         #[cfg(feature = "metrics")]
         let peer_gauge = if ipv4 {
